@@ -46,6 +46,7 @@ def expect(A, call):
         if reasons: return ('reject', reasons)
         if free: return ('any',)
         return ('accept',)
+    if kind in (1, 2) and call.get('arg.ragged'): return ('any',)      # ragged arguments: the documented contract is silent (C10 still requires 'unchanged' if refused)
     if kind == 1:      # point(frames)
         bad = call['arg.nbFrames'] != A['nbFrames'] or call['arg.nbFrames'] == 0 or call['arg.nbNames'] == 0 or call['arg.nameExists']
         return ('reject', {INVALID_ARGUMENT}) if bad else ('accept',)
